@@ -236,16 +236,15 @@ class ReedMullerDecoder(BaseBlockDecoder[ReedMullerCodeEncoder]):
 
         # Process blockwise
         def decode_block(r_block):
-            batch_size = r_block.shape[0]
+            # One row per received word, whatever the leading (batch, block) dimensions are
+            words = r_block.reshape(-1, self.code_length)
+            batch_size = words.shape[0]
             decoded = torch.zeros(batch_size, self.code_dimension, dtype=torch.int, device=received.device)
-            errors = torch.zeros_like(r_block) if return_errors else None
+            errors = torch.zeros_like(words) if return_errors else None
 
             for i in range(batch_size):
-                # Get the current received word - ensure it's a 1D tensor
-                if r_block.dim() == 3:  # Handle the case when r_block has shape [batch, 1, code_length]
-                    r = r_block[i, 0, :]
-                else:  # Handle the case when r_block has shape [batch, code_length]
-                    r = r_block[i, :]
+                # Get the current received word as a 1D tensor
+                r = words[i]
 
                 """
                 # Convert to binary for hard decoding or compute hard decisions for soft decoding
@@ -336,6 +335,9 @@ class ReedMullerDecoder(BaseBlockDecoder[ReedMullerCodeEncoder]):
                     correct_codeword = self.encoder(u_hat.float().unsqueeze(0)).squeeze(0)
                     errors[i] = (r.to(torch.int) != correct_codeword.to(torch.int)).to(torch.int)
 
+            decoded = decoded.reshape(*r_block.shape[:-1], self.code_dimension)
+            if errors is not None:
+                errors = errors.reshape(r_block.shape)
             return (decoded, errors) if return_errors else decoded
 
         # Apply decoding blockwise
